@@ -36,6 +36,7 @@ type V struct {
 	globalVals  map[*types.Var]Val
 	globalBusy  map[*types.Var]bool
 	globalBases []string
+	nGdef       int
 	axioms   []string
 	closures map[string]*closureInfo
 
@@ -435,14 +436,13 @@ func (v *V) finishReturn(fr *Frame, st *State, vals []Val, pos token.Pos) Outcom
 					sts = append(sts, o.st)
 				}
 			}
-			m := v.tryMerge(sts)
-			if m == nil {
-				if len(sts) == 0 {
-					st.dead = true
-					break
-				}
-				panic(unsupported("deferred closure with unmergeable paths"))
+			if len(sts) == 0 {
+				st.dead = true
+				break
 			}
+			// one outcome per return: the paths of the closure are merged even when they carry
+			// quantified facts of their own (they then sit under a disjunction)
+			m := mergeStates(v.d, sts)
 			*st = *m
 		} else {
 			v.evalCall(v.env(st, fr), d.call)
@@ -577,6 +577,23 @@ func (v *V) addModifies(e *Env, m string, out map[string][]string) {
 		out[comp] = append(out[comp], ref)
 	}
 	if m == "alloc" {
+		return
+	}
+	if strings.HasPrefix(m, "lock(") && strings.HasSuffix(m, ")") {
+		// lock(x.f): the lock state (held / read count) of the mutex field f of object x
+		xe, err := parseSpecExpr(m[5 : len(m)-1])
+		if err != nil {
+			panic(bindErr("modifies %s: %v", m, err))
+		}
+		ref, key, ok := v.lockTarget(e, xe)
+		if !ok {
+			panic(bindErr("modifies %s: not a mutex field of a struct reached through a pointer", m))
+		}
+		hc, rc := v.lockComps(key)
+		e.st.heapGet(v.d, hc, "(Array Int Bool)")
+		e.st.heapGet(v.d, rc, "(Array Int Int)")
+		add(hc, ref, false)
+		add(rc, ref, false)
 		return
 	}
 	if strings.HasPrefix(m, "mem(") && strings.HasSuffix(m, ")") {
